@@ -12,6 +12,9 @@ from common import (discovered_env_reads, discovered_env_value, LAUNCH, NCPU, Ha
 
 SIM_TIMEOUT_S = 25
 ORACLE_TIMEOUT_S = 30
+# "slow" is not "no result": whatever is silent for the ordinary budget gets this much once more before it is judged
+# (a loaded machine, a grammar that is quadratic on the generated input)
+LONG_TIMEOUT_S = 300
 
 
 def entry_class(entry):
@@ -79,6 +82,7 @@ class ParseSim:
         self.iso = {}
         self.no_result = []
         self.oracle_spawns = 0
+        self.slow_oracle_jobs = 0
 
     # ---------------------------------------------------------------- inputs
     def gen_input(self, rng, gname):
@@ -314,7 +318,7 @@ class ParseSim:
         focus = rng.coin(700)
         deep_sim = rng.coin(100)
         if deep_sim:
-            g = rng.choice(sorted(n for n in gnames if "deep" in self.grammars[n]))
+            g = rng.choice(sorted(n for n in gnames if "deep" in self.grammars[n] and n != "lr_memo"))  # (a traced deep parse of lr_memo is a million steps)
             vs = [v["name"] for v in rng.sample(self.by_grammar[g], min(len(self.by_grammar[g]), rng.range(1, 2)))]
             ntasks = rng.range(2, 4)
         elif focus:
@@ -504,6 +508,15 @@ class ParseSim:
                              "entropy": derive(self.seed, "iso", *k) >> 2}, ensure_ascii=False) for k in missing]
         outs = self._batch("oracle", lines, ORACLE_TIMEOUT_S, NCPU)
         self.oracle_spawns += len(lines)
+        silent = [i for i, o in enumerate(outs) if "res" not in o]
+        if silent:
+            # once more with the long budget, a few at a time
+            again = self._batch("oracle", [lines[i] for i in silent], LONG_TIMEOUT_S, 4)
+            self.oracle_spawns += len(silent)
+            for i, o in zip(silent, again):
+                outs[i] = o
+                if "res" in o:
+                    self.slow_oracle_jobs += 1
         for k, o in zip(missing, outs):
             if "res" not in o:
                 # no answer even in isolation (timeout, abort): kept as a result of its own, so that it is compared like
@@ -525,21 +538,21 @@ class ParseSim:
                 bad.append((r["t"], r["j"], {"res": exp["res"], "ctx": exp["ctx"]}, {"res": r["res"], "ctx": r["ctx"]}))
         return bad
 
-    def run_single(self, plan):
+    def run_single(self, plan, alarm=SIM_TIMEOUT_S):
         """One plan, one fresh process, directly (used by replay and minimisation)."""
         env = dict(os.environ)
         env.update(shim_env(entropy=plan.get("entropy", 0)))
-        env["VERIF_ALARM"] = str(SIM_TIMEOUT_S)
+        env["VERIF_ALARM"] = str(alarm)
         p = subprocess.run([LAUNCH, self.worker, "run"], input=json.dumps(plan, ensure_ascii=False).encode(), env=env,
                            stdout=subprocess.PIPE, stderr=subprocess.DEVNULL)
         if p.returncode != 0:
             return {"ok": False, "error": "timeout" if p.returncode == -14 else "died", "status": p.returncode}
         return json.loads(p.stdout)
 
-    def fails_same(self, plan, sig):
+    def fails_same(self, plan, sig, alarm=SIM_TIMEOUT_S):
         """Does some job with the signature (variant, rule, input) still differ from its isolated result?"""
         self.ensure_oracle([job_key(j) for q in plan["tasks"] for j in q])
-        out = self.run_single(plan)
+        out = self.run_single(plan, alarm)
         if not out.get("ok"):
             return (sig == "noresult"), out
         for (t, j, exp, act) in self.mismatches(plan, out):
@@ -627,7 +640,7 @@ def stats_init():
     return {"simulations": 0, "steps": 0, "switches": 0, "switches_inside_parse": 0, "cache_hits": 0, "leftrec_rounds": 0,
             "hook_events": 0, "rule_events": 0, "jobs": 0, "jobs_ok": 0, "jobs_err": 0, "overlap_same_variant": 0,
             "overlap_same_input": 0, "same_variant_follows_on_thread": 0, "same_input_again_on_thread": 0,
-            "fresh_thread_sims": 0, "deep_nesting_sims": 0, "aged_process_sims": 0, "many_parses_sims": 0, "buffer_reuse_sims": 0, "volume_probe_sims": 0, "thread_churn_sims": 0, "jobs_with_turned_settings": 0, "sims_with_environment_variables": 0, "sims_mixing_grammars": 0, "unbalanced_trace_callbacks": 0, "failing_jobs_on_memoized_variants": 0}
+            "fresh_thread_sims": 0, "deep_nesting_sims": 0, "aged_process_sims": 0, "many_parses_sims": 0, "buffer_reuse_sims": 0, "volume_probe_sims": 0, "thread_churn_sims": 0, "slow_sims": 0, "jobs_with_turned_settings": 0, "sims_with_environment_variables": 0, "sims_mixing_grammars": 0, "unbalanced_trace_callbacks": 0, "failing_jobs_on_memoized_variants": 0}
 
 
 def run_check(prop, tier, seed, replay_path=None):
@@ -684,12 +697,13 @@ def run_check(prop, tier, seed, replay_path=None):
                 # no result from the simulation: a violation if it reproduces (the isolated jobs all terminate)
                 if sum(1 for v in violations if v.get("sig") == "noresult") >= 2:
                     continue  # enough of these to report; every re-run may cost a full timeout
-                again = ps.run_single(plan)
+                again = ps.run_single(plan, LONG_TIMEOUT_S)
                 if not again.get("ok"):
                     violations.append({"plan": plan, "sig": "noresult", "first": (None, None, None, out)})
-                else:
-                    harness_problems.append({"plan_id": plan["id"], "out": out})
-                continue
+                    continue
+                # slow, not silent: judged like any other simulation
+                stats["slow_sims"] += 1
+                out = again
             policies[plan["policy"]["kind"]] = policies.get(plan["policy"]["kind"], 0) + 1
             for k in ("steps", "switches", "switches_inside_parse", "cache_hits", "leftrec_rounds", "hook_events", "rule_events",
                       "overlap_same_variant", "overlap_same_input"):
@@ -847,7 +861,7 @@ def run_check(prop, tier, seed, replay_path=None):
             log("VIOLATION property=%s replay=%s" % (prop, path))
             continue
         plan, sig = v["plan"], v["sig"]
-        rep_ok, _ = ps.fails_same(plan, sig)
+        rep_ok, _ = ps.fails_same(plan, sig, LONG_TIMEOUT_S if sig == "noresult" else SIM_TIMEOUT_S)
         minimal, used = ps.minimise(plan, sig, budget=12 if sig == "noresult" else 150) if rep_ok else (plan, 0)
         fin_ok, fin_out = ps.fails_same(minimal, sig)
         detail = None
@@ -896,6 +910,7 @@ def run_check(prop, tier, seed, replay_path=None):
         "environment_reads_found": [n for n, _ in discovered_env_reads()],
         "isolated_oracle_processes": ps.oracle_spawns,
         "isolated_jobs_without_result": len(ps.no_result),
+        "isolated_jobs_answered_only_with_the_long_budget": ps.slow_oracle_jobs,
         "determinism_selftest": det,
         "harness_problems": harness_problems[:5],
         "real_components": ["generated parsers (built from /repo working tree by its own peginator_codegen)", "peginator runtime", "std::thread / real TLS", "IndentedTracer via parse_with_trace"],
@@ -961,7 +976,7 @@ def replay(ps, prop, path):
         log("replay: results agree now")
         return 0
     plan, sig = r["plan"], r["signature"]
-    ok, out = ps.fails_same(plan, sig)
+    ok, out = ps.fails_same(plan, sig, LONG_TIMEOUT_S if sig == "noresult" else SIM_TIMEOUT_S)
     if ok:
         if out.get("ok"):
             for (t, j, exp, act) in ps.mismatches(plan, out):
